@@ -8,7 +8,7 @@ EXTENDS FMLBytecode, FMLSyntax, TLC, Json, IOUtils
 VARIABLES f, nargs
 
 MaxLen == IF "MAXLEN" \in DOMAIN IOEnv THEN CHOOSE k \in 0..6 : ToString(k) = IOEnv.MAXLEN ELSE 3
-Alphabet == { <<126>>, <<92>>, <<110>>, <<34>>, <<97>>, <<10>>, <<195, 169>> }
+Alphabet == { <<126>>, <<92>>, <<110>>, <<34>>, <<97>>, <<10>>, <<195, 169>>, <<114>>, <<116>> }    \* ~ \ n " a LF e-acute r t  (n, r, t: the letters of the escapes)
 Strings == UNION {[1..n -> Alphabet] : n \in 0..MaxLen}
 RECURSIVE Flat(_)
 Flat(ss) == IF ss = <<>> THEN <<>> ELSE Head(ss) \o Flat(Tail(ss))
